@@ -227,6 +227,8 @@ def members(body):
         c = re.sub(r'alignas\s*\([^)]*\)', '', c).strip()
         if c.startswith(('using', 'friend', 'template', 'static', 'enum', 'struct', 'class', 'union', 'typedef')):
             continue
+        if re.search(r'\boperator\b|=\s*(delete|default)\s*;', c):
+            continue
         head = c.split('{')[0].split('=')[0]
         if '(' in head:
             continue
